@@ -64,12 +64,12 @@ type Result struct {
 }
 
 type connInfo struct {
-	id        int
-	rejected  bool
-	accepted  bool
-	closeCbs  int
-	handlerSt int // handler invocations started
-	panicked  bool
+	id          int
+	rejected    bool
+	accepted    bool
+	closeCbs    int
+	handlerSt   int // handler invocations started
+	panicked    bool
 	settledDead bool // seen closed by the server at a quiescence point
 }
 
@@ -94,22 +94,22 @@ type run struct {
 	res  *Result
 	conn map[int]*connInfo // by connection id
 
-	opsDone     int
-	serveRet    bool
-	serveErr    error
-	serveRetNs  int64
-	cancelNs    int64
-	cancelled   bool
-	shutCalled  bool
-	shutRet     bool
-	shutErr     error
-	shutRetNs   int64
-	ctlDone     bool
-	served      bool // OnServeFunc fired
-	acceptSeq   int
-	onErrors    []string
-	clients     []*clientState
-	serveCancel context.CancelFunc
+	opsDone          int
+	serveRet         bool
+	serveErr         error
+	serveRetNs       int64
+	cancelNs         int64
+	cancelled        bool
+	shutCalled       bool
+	shutRet          bool
+	shutErr          error
+	shutRetNs        int64
+	ctlDone          bool
+	served           bool // OnServeFunc fired
+	acceptSeq        int
+	onErrors         []string
+	clients          []*clientState
+	serveCancel      context.CancelFunc
 	startedAtShutRet map[int]int
 }
 
@@ -289,7 +289,7 @@ func (r *run) main() {
 	if sc.Control == "shutdown-before-serve" {
 		r.shutdown(context.Background())
 	}
-	vsched.GoNamed("serve", func() {
+	vsched.Spawn("serve", func() {
 		err := r.srv.Serve(serveCtx, r.net.L, r.h)
 		r.serveRet, r.serveErr, r.serveRetNs = true, err, vsched.NowNs()
 	}, true)
@@ -299,9 +299,9 @@ func (r *run) main() {
 	}
 	for i := range sc.Clients {
 		i := i
-		vsched.GoNamed(fmt.Sprintf("client%d", i), func() { r.client(i) }, false)
+		vsched.Spawn(fmt.Sprintf("client%d", i), func() { r.client(i) }, false)
 	}
-	vsched.GoNamed("control", r.control, true)
+	vsched.Spawn("control", r.control, true)
 
 	// wait for scripts and controller, let the system settle, then tear down what is left
 	vsched.Block("main.wait", func() bool {
@@ -375,7 +375,7 @@ func (r *run) control() {
 		}
 	case "cancel":
 		r.cancelled = true
-			r.cancelNs = vsched.NowNs()
+		r.cancelNs = vsched.NowNs()
 		r.serveCancel()
 		vsched.Signal()
 	case "shutdown+cancel":
@@ -441,7 +441,7 @@ func (r *run) client(i int) {
 		case op == "close":
 			if cs.conn != nil && !cs.closed {
 				cs.closed = true
-					cs.conn.Close()
+				cs.conn.Close()
 			}
 		case op == "quiesce":
 			vsched.Quiesce()
